@@ -95,10 +95,39 @@ def _hash_checks(cls, via, tag, a, b):
                         "variant not found in a set/dict keyed by original")
 
 
+def check_history(ctx, case):
+    """hash of a graph reached through an editing history == hash of a
+    renamed fresh build of the same labelled graph"""
+    from vp import ops as O
+    from vp.model import validity_error
+    cls = case["cls"]
+    m = O.replay_model(cls, case["ops"])
+    if validity_error(m, strict=False) is not None or not m.atoms or any(
+            d[2] is None for *_, d in m.all_descs()):
+        return None
+    g = rc.classes()[cls]()
+    try:
+        for op in case["ops"]:
+            g = O.apply_real(g, op)
+    except Exception:
+        return None
+    mp = {a: b for a, b in case["mapping"] if a in m.atoms}
+    for a in m.atoms:
+        mp.setdefault(a, a)
+    if len(set(mp.values())) != len(mp):
+        raise HarnessError("history case: mapping not injective")
+    rb, _ = S.variant_from(m, list(mp.items()), case["tseed"])
+    b = rc.build(rb)
+    _hash_checks(cls, "history", _tag(rb), g, b)
+    return m
+
+
 def check_case(ctx, case):
     via = case.get("via")
     if via == "process":
         return check_process(ctx, case)
+    if via == "history":
+        return check_history(ctx, case)
     if via == "pair":
         ma = rc.require_valid(case["a"])
         mb = rc.require_valid(case["b"])
@@ -209,6 +238,33 @@ def run(ctx):
 
     ctx.hyp("c03-pairs", S.tapes(1200).map(gen_p), check_p,
             ctx.scale(3000, 150000), shrinker=shrink)
+
+    from vp.props import c01
+
+    def gen_h(data):
+        tp = S.Tape(data)
+        cls = tp.pick(["MG", "SMG", "CRG", "SCRG", "SCRG"])
+        ops, m = S.history(tp, cls, c01.HIST_IDS, 4 + tp.below(30))
+        atoms = list(m.atoms)
+        pool = list(dict.fromkeys(atoms + c01.HIST_IDS + [600, 601, 602]))
+        mp = dict(zip(atoms, tp.shuffle(pool)[:len(atoms)]))
+        return {"via": "history", "cls": cls, "ops": ops,
+                "mapping": [[a, b] for a, b in mp.items()],
+                "tseed": tp.below(1 << 30)}
+
+    def check_h(case):
+        m = check_history(ctx, case)
+        if m is None:
+            ctx.exclude("history-not-a-clean-specified-graph")
+            return
+        kinds = {o[0] for o in case["ops"]}
+        ctx.note(case, len(m.atoms) > 1 and bool(kinds & {
+            "remove_atom", "remove_bond", "relabel_inplace",
+            "del_atom_change", "del_bond_change", "del_atom_stereo",
+            "del_bond_stereo"}), ["via:history", f"cls:{case['cls']}"])
+
+    ctx.hyp("c03-history", S.tapes(2500).map(gen_h), check_h,
+            ctx.scale(2500, 100000), shrinker=c01.shrink_history)
 
     # process independence
     nseeds = 3 if ctx.quick else 12
